@@ -173,6 +173,36 @@ func checkC12(w *World, r *Report) {
 			}
 			return true
 		})
+		// the using tree is replaced whenever a module is given: the store to copy.useTree depends on `m != nil` only
+		{
+			cf := w.SSAFunc(w.Method("parse", "node", "Clone"))
+			onlyNil := false
+			for _, b := range cf.Blocks {
+				for _, in := range b.Instrs {
+					st, ok := in.(*ssa.Store)
+					if !ok {
+						continue
+					}
+					fa, ok := st.Addr.(*ssa.FieldAddr)
+					if !ok || !isFieldAddrOf(fa, useTree) {
+						continue
+					}
+					if len(b.Preds) == 1 {
+						if iff, ok := b.Preds[0].Instrs[len(b.Preds[0].Instrs)-1].(*ssa.If); ok && b.Preds[0].Succs[0] == b {
+							if bo, ok := iff.Cond.(*ssa.BinOp); ok && bo.Op == token.NEQ {
+								_, xp := bo.X.(*ssa.Parameter)
+								c, yc := bo.Y.(*ssa.Const)
+								// and that test is itself unconditional (its block is the entry or dominates every return)
+								if xp && yc && c.IsNil() && len(b.Preds[0].Preds) == 0 {
+									onlyNil = true
+								}
+							}
+						}
+					}
+				}
+			}
+			r.Check(onlyNil, "R12.2", "node.Clone re-homes every time", cfd.Pos(), "useTree = m.tree whenever m != nil", "the using module is recorded only under a further condition (e.g. only the first time): nodes of a grouping that was already expanded inside another grouping keep the namespace and module of the earlier user")
+		}
 		r.Check(copiesStruct && setsUse && recurses, "R12.2", "node.Clone", cfd.Pos(), "copies the node (keeping tree), useTree from the argument, children cloned with the same argument", "Clone no longer keeps the defining tree, sets the using tree from its argument and re-homes every descendant")
 		// UsesRoot before Root in the three accessors
 		for _, fn := range []string{"getNodeNamespaceInternal", "getNodeModulenameInternal"} {
@@ -278,6 +308,7 @@ func checkC12(w *World, r *Report) {
 			return true
 		})
 		sort.Strings(kinds)
+		c12InheritUnconditional(w, r, "R12.3")
 		r.Check(strings.Join(kinds, ",") == "if-feature,status,when", "R12.3", "inheritCommonProperties", fd.Pos(), "copies if-feature, status, when from the parent", "inherited statement set is {"+strings.Join(kinds, ",")+"}, must be {if-feature,status,when}")
 		// applyUsesToNode: every Clone result is passed to inheritCommonProperties(use, newKid, …)
 		au := w.Method("compile", "Compiler", "applyUsesToNode")
@@ -534,6 +565,60 @@ func checkC15(w *World, r *Report) {
 			}
 		}
 		r.Check(bad == "", "R15.6", "getPfxName import scan", f.Pos(), "no loop-carried result: the first matching import decides", "variable "+bad+" is carried through the scan: a later import with the same prefix (merged from an included submodule) overrides the module's own import")
+	})
+
+	r.Rule("R15.7", "what an expression compiles to depends only on its text and on the prefix map of the statement it is written in: the expression compilers keep no package-level state that is written during compilation (no memo of compiled programs keyed by text) — same analysis as R06.3", 3)
+	r.guard("R15.7", func() { c06GlobalsRule(w, r, "R15.7") })
+
+	r.Rule("R15.8", "the machine stored for a must/when is compiled from that very statement: the machine handed to NewMustContext / NewWhenContext comes from a constructor call of the same loop iteration, never from a value carried over from the previous statement", 2)
+	r.guard("R15.8", func() {
+		for _, c := range []struct{ fn, ctor string }{{"BuildMusts", "NewMustContext"}, {"BuildWhens", "NewWhenContext"}} {
+			f := w.SSAFunc(w.Method("compile", "Compiler", c.fn))
+			if f == nil {
+				panic(undecided{"Compiler." + c.fn})
+			}
+			loops := ssaLoops(f)
+			checked := false
+			for _, b := range f.Blocks {
+				for _, in := range b.Instrs {
+					call, ok := in.(*ssa.Call)
+					if !ok || call.Call.StaticCallee() == nil || call.Call.StaticCallee().Name() != c.ctor {
+						continue
+					}
+					checked = true
+					// innermost loop around the call
+					var hdr *ssa.BasicBlock
+					for _, l := range loops {
+						if l.body()[b] && (hdr == nil || hdr.Dominates(l.Header)) {
+							hdr = l.Header
+						}
+					}
+					carried := ""
+					seen := map[ssa.Value]bool{}
+					var walk func(v ssa.Value, d int)
+					walk = func(v ssa.Value, d int) {
+						if seen[v] || d > 10 {
+							return
+						}
+						seen[v] = true
+						if phi, ok := v.(*ssa.Phi); ok {
+							if phi.Block() == hdr {
+								carried = phi.Comment
+								return
+							}
+							for _, e := range phi.Edges {
+								walk(e, d+1)
+							}
+						}
+					}
+					walk(call.Call.Args[0], 0)
+					r.Check(hdr != nil && carried == "", "R15.8", c.fn+": machine handed to "+c.ctor, call.Pos(), "built in the same iteration", "the machine stored for a statement can be the one left in variable "+carried+" by the previous statement of the node: the later must/when is then never compiled (no syntax or prefix check) and evaluates the earlier expression")
+				}
+			}
+			if !checked {
+				panic(undecided{c.fn + ": " + c.ctor + " call not found"})
+			}
+		}
 	})
 
 	r.Rule("R15.3", "prefix lookup goes through the defining module: GetModuleByPrefix (and what it calls) reads the node's defining tree, never the using tree; only the empty prefix takes the context-dependent namespace; an unknown prefix is an error unless unknowns are skipped", 3)
